@@ -8,7 +8,7 @@ PROFILE = {'name': 'c10', 'max_clients': 6, 'hostile_masks': False, 'weights': {
 def run(ctx):
     res = Result("C10")
     results, cover, shapes = common.e1_check(
-        ctx, res, PROFILE, n_quick=128, n_thorough=640, steps=160, steps_thorough=320,
+        ctx, res, PROFILE, n_quick=128, n_thorough=2560, steps=160, steps_thorough=320,
         relevant=lambda t: t[0] in ('speak',),
         nontrivial_rule='all combinations of (member, voiced-or-above, +n, +s, +m, banned, excepted) reached through mode/list/nick/membership histories, PRIVMSG and NOTICE, existing and missing channels and nicks, away set/changed/cleared; NOTICE must draw no numeric at all; distinct = (verb, 7-bit condition vector, delivered?)')
     vec = {k for k in res.distinct}
